@@ -3,6 +3,7 @@ import CGV.Props.C07Path
 import CGV.Props.C07Tree
 import CGV.Props.C07TreeGraph
 import CGV.Props.C07TreeRead
+import CGV.Props.C07Cycle
 #print axioms CGV.C07.C07_symbols_inverse
 #print axioms CGV.C07.C07_single_bond_silent
 #print axioms CGV.C07.C07_marker_fresh
@@ -29,3 +30,6 @@ import CGV.Props.C07TreeRead
 #print axioms CGV.C07.graphOfTree_emb
 #print axioms CGV.C07.embT_block
 #print axioms CGV.C07.embK_block
+#print axioms CGV.C07.writeGraph_cycle
+#print axioms CGV.C07.C07_cycle_text
+#print axioms CGV.C07.C07_cycle_roundtrip
